@@ -350,8 +350,8 @@ def closure_bindings(callterm):
                     src = recv
                     info = cinfo(callterm[1])
                     if 'Map' in (info['self'] or '') or 'Map' in (info['def'] or ''):
-                        m[('param', 2)] = ('field', ('item', ('call', 'iter', (recv,))), '0')
-                        m[('param', 3)] = ('field', ('item', ('call', 'iter', (recv,))), '1')
+                        m[('param', 2)] = ('field', ('item', recv), '0')
+                        m[('param', 3)] = ('field', ('item', recv), '1')
                     else:
                         m[('param', 2)] = ('item', recv)
                 else:
